@@ -49,7 +49,12 @@ def run(prop, tier, seed, repo, jobs):
         for kinds in combos:
             if watch and tier == 'quick' and prop == 'C11' and 'service' not in kinds:
                 continue     # single-instance obligation is about services
-            cases.append((prop, kinds, watch, K, qcap, seed, True, 300 if tier == 'quick' else (600 if n >= 3 else 1200), repo, tier, None if tier == 'quick' else (900 if n >= 3 else 2400)))
+            only = None
+            if watch and tier == 'quick' and prop == 'C11':
+                # quick tier, watch mode: the restart obligations (single instance across restarts) take minutes per case and stay in the
+                # thorough tier; what is decided here is that a rebuild never starts while a service it depends on is down
+                only = ('dependency_services_are_running_when_a_build_starts',)
+            cases.append((prop, kinds, watch, K, qcap, seed, True, 300 if tier == 'quick' else (600 if n >= 3 else 1200), repo, tier, None if tier == 'quick' else (900 if n >= 3 else 2400), None, only))
     if prop in ('C11', 'C20'):
         # one fixed three-target graph: an aggregate (the only root) over a build and a service -- the smallest graph in which
         # the two kinds of acknowledgement of one target travel separately
@@ -75,6 +80,7 @@ def run(prop, tier, seed, repo, jobs):
     violations, inconclusive, known_lines = [], [], []
     reported_known, known_instances = {}, []
     undecided = []
+    cross = []
     nq = nunsat = 0
     solver_s = 0.0
     samples = []
@@ -141,6 +147,10 @@ def run(prop, tier, seed, repo, jobs):
             violations.append(rpath)
             samples.append({'case': tag, 'obligation': q['name'], 'verdict': 'sat (reproduced natively)', 'graph': case['deps'], 'roots': case['roots'],
                             'schedule': [s['alt'] for s in case['steps'] if s['alt'][0] != 'stutter']})
+        for cc in res.get('cross_checks', []):
+            cross.append({'case': tag, 'obligation': cc.get('obligation'), 'results': cc.get('results'), 'agree': cc.get('agree')})
+            if cc.get('agree') is False:
+                inconclusive.append('%s: %s: solvers disagree: %s (expected %s)' % (tag, cc.get('obligation'), cc.get('results'), cc.get('expect')))
         w = res.get('witness')
         if w is not None:
             if w['verdict'] != 'sat':
@@ -423,6 +433,7 @@ def run(prop, tier, seed, repo, jobs):
                           'blocking on full channels (capacity 64 is never reached within the bound; see DESIGN F2)', 'real OS scheduling / process groups'],
         'pinned_cases': [{'kinds': r['kinds'], 'graph': r['pinned'], 'K_steps': r['K']} for r in results if r.get('pinned')],
         'exhaustive': False, 'known_finding_instances': known_instances, 'undecided_at_n3': undecided, 'queue_pressure_search': sysq_summary,
+        'solver_cross_check': {'what': 'one discharged obligation per case re-decided by z3 5.1.0 (CLI) on the SMT-LIB2 dump of the z3 4.8.12 (API) query; cvc5 1.0.3 does not finish these bit-vector unrollings within 300 s', 'queries': len(cross), 'agree': sum(1 for c in cross if c['agree'] is True), 'disagree': sum(1 for c in cross if c['agree'] is False), 'undecided': sum(1 for c in cross if c['agree'] is None), 'samples': cross[:4]},
         'case_wall_s': {('%s%s' % ('/'.join(r['kinds']), ' watch' if r['watch'] else '')): [r.get('wall_s'), r.get('summary_s'), r.get('unroll_s'), (r.get('witness') or {}).get('solver_s')] for r in results},
     }
     common.write_evidence(prop, tier, seed, 'model_checking', coverage, ASSUMPTIONS, wall, len(violations))
